@@ -27,7 +27,7 @@ MOD = "c08"
 _PRIMS = {"follow", "get_packed_refs", "read_loose_ref", "read_ref", "GitFile", "abort", "close", "write", "remove",
           "exists", "lexists", "_remove_packed_ref", "write_packed_refs", "add_packed_refs", "allkeys",
           "_invalidate_packed_refs_cache", "set_if_equals", "add_if_new", "remove_if_equals", "copy", "pop",
-          "_prune_loose_ref"}
+          "_prune_loose_ref", "_check_packed_conflict", "_remove_empty_directories", "isdir", "islink"}
 _REF_SUBSCRIPTS = ("self[ref]", "self._repo.refs[ref]", "self.refs[ref]", "self[name]")
 
 
@@ -80,6 +80,7 @@ SKELETONS = [
     ("refs.py", "DiskRefsContainer.add_packed_refs", "addPackedRefs", False),
     ("refs.py", "DiskRefsContainer.pack_refs", "packRefs", False),
     ("refs.py", "DiskRefsContainer._prune_loose_ref", "pruneLooseRef", None),     # optional: [] when absent
+    ("refs.py", "DiskRefsContainer._check_packed_conflict", "checkPackedConflict", None),
     ("refs.py", "DiskRefsContainer.set_symbolic_ref", "setSymbolicRef", False),
     ("refs.py", "DiskRefsContainer.allkeys", "allKeys", False),
     ("refs.py", "DictRefsContainer.set_if_equals", "dictSetIfEquals", False),
@@ -336,6 +337,14 @@ def _do_ref_op(refs, op, names=None, shas=None):
 
 
 def _final_refs(root, names=None):
+    try:
+        return _final_refs_raw(root, names)
+    except Exception as e:  # noqa: BLE001 - e.g. an empty/truncated packed-refs cannot be read back at all
+        bad = "!" + type(e).__name__
+        return {str(i): [bad, bad] for i in range(len(REF_NAMES))}, [], os.path.exists(os.path.join(root, "packed-refs"))
+
+
+def _final_refs_raw(root, names=None):
     from dulwich.refs import DiskRefsContainer
     r = DiskRefsContainer(root)
     packed = r.get_packed_refs()
